@@ -13,7 +13,7 @@ PROP = dict(
          "option sets, from a maximally shared and a fully unshared build, with a fresh and a reused Hasher. "
          "boc.emit/boc.parse/go.reader: random valid tables in random topological orders x random header variants "
          "(3 magics, idx, crc, cache bits, size up to 4, off_bytes up to 8, several roots, absent count, cells with "
-         "stored hashes). boc.order / boc.serialize on every go.writer table. non-trivial = DAG with >= 2 cells and (sharing or a non-byte-aligned cell or an exotic cell), "
+         "stored hashes). boc.order / boc.serialize on every go.writer table; every string form (hex, base64 std padded, JSON, single-root and Must readers) and the flags argument of SerializeBoc on two option sets per table. non-trivial = DAG with >= 2 cells and (sharing or a non-byte-aligned cell or an exotic cell), "
          "distinct by table (+ parameters)",
     trusted_base=[
         "hand model lean/TongoModel/Boc.lean (reader) tied to boc/boc.go by exact comparison on every run (boc.parse: "
@@ -24,8 +24,12 @@ PROP = dict(
         "float expression math.Ceil(float64(bits)/8) of serializeBoc modelled by the integer (bits+7)/8 (exact: bits <= 64)",
     ],
     assumptions=[
-        "KeyInjOn is DERIVED from CollisionFree only for level-0 tables (mask 0, no pruned branch: "
-        "keyInjOn_of_collisionFree, roundtrip_go_writer_sha); for cells with non-zero level masks it remains a hypothesis, "
+        "hash hypotheses of keyInjOn_of_collisionFree / roundtrip_go_writer_sha: CollisionFree H (representations of the "
+        "table's cells) AND hlen: every output of H has 32 bytes; hlen is not proved for the Lean sha256 primitive (H is a "
+        "parameter; the primitive is validated against Go's crypto/sha256 on every run)",
+        "KeyInjOn is DERIVED from CollisionFree in C01 only for level-0 tables (mask 0, no pruned branch: "
+        "keyInjOn_of_collisionFree, roundtrip_go_writer_sha; for WFExotic cells with level masks agent hash derives it "
+        "from Lemmas/CellHashInj.reprHash_inj_wfExotic for C18's proof cells); otherwise it remains a hypothesis, "
         "and it is FALSE for inconsistent masks even without collisions (a mask-0 parent hashes only the level-0 stored "
         "hash of a pruned child, so two different children can give equal parent hashes): the Go writer would merge such "
         "cells; the generators only build consistent masks",
@@ -74,7 +78,7 @@ PROP = dict(
                "whose roots unfold to the input trees; roundtrip_go_writer -- hence the whole writer model round-trips "
                "through the reader for all 2^3 options; keyInjOn_of_collisionFree / roundtrip_go_writer_sha -- the key "
                "hypothesis discharged from collision-freedom for level-0 cells; serialize_canonical -- presentation-"
-               "independent bytes; cell_has_presentation / roundtrip_cell -- the statements on Cell trees. Tie: reader model == Go, order model == Go (cell order and all "
+               "independent bytes; cell_has_presentation / roundtrip_go_writer_single / roundtrip_cell -- the statements on Cell trees, every witness pinned (order = ok o, serialize = ok bs, parse bs = ok (o.table, o.roots), root unfolds to c, same representation hash) and the size conditions derived from the input (fewer than 2^24 rows/nodes). Tie: reader model == Go, order model == Go (cell order and all "
                "8 outputs byte for byte), Go writer through the verified reader, Go reader against the reference "
                "writer, on every generated input.",
     level_note="trusted: Lean kernel, hand model of the reader (exactly compared with Go each run), harness, check.py",
